@@ -196,7 +196,7 @@ def gen_graphs(families):
         mk = f[8] if len(f) > 8 else 0
         kd = f[9] if len(f) > 9 else 0
         return vlib.tlc("TMGenB" if br else "TMGen", "gen_%s.cfg" % name, files={"gen_%s.cfg" % name: gen_cfg(mode, n, me, fk, dang, br, rr, mk, kd)},
-                        workers=2, timeout=900, heap="4g")
+                        workers=2, timeout=3000, heap="4g")      # (generous: on a loaded machine the 4-node workflow universes take long)
     with concurrent.futures.ThreadPoolExecutor(max_workers=JVMS) as ex:
         runs = list(ex.map(one, families))
     graphs, stats = [], []
@@ -584,12 +584,12 @@ def families_for(tier, rnd):
                 ("wf3k", "wf", 3, 9, (), True, 0, 0, 0, 1)]       # one edge control-only (AddDependency) or data-only
     return [("dag3", "dag", 3, 9, ("err", "panic"), False, 0), ("pregel3", "pregel", 3, 9, ("err", "panic"), False, 0),
             ("wf3", "wf", 3, 9, ("err", "panic"), True, 0), ("pregel4", "pregel", 4, 14, ("err",), False, 0),
-            ("dag4", "dag", 4, 14, ("err",), False, 0), ("wf4", "wf", 4, 14, ("panic",), True, 0),
+            ("dag4", "dag", 4, 14, ("err",), False, 0), ("wf4", "wf", 4, 10, ("panic",), True, 0),
             ("dag3b", "dag", 3, 9, ("err",), False, 1), ("wf3b", "wf", 3, 9, ("err",), True, 1),
             ("dag3r", "dag", 3, 9, (), False, 0, 3), ("wf3r", "wf", 3, 9, (), True, 0, 3), ("pregel3r", "pregel", 3, 9, (), False, 0, 2),
-            ("dag4r", "dag", 4, 14, (), False, 0, 1), ("wf4r", "wf", 4, 14, (), True, 0, 1),
+            ("dag4r", "dag", 4, 14, (), False, 0, 1), ("wf4r", "wf", 4, 10, (), True, 0, 1),
             ("dag3i", "dag", 3, 9, (), False, 0, 0, 2), ("wf3i", "wf", 3, 9, (), True, 0, 0, 3), ("dag4i", "dag", 4, 14, (), False, 0, 0, 1),
-            ("wf4i", "wf", 4, 14, (), True, 0, 0, 1),
+            ("wf4i", "wf", 4, 10, (), True, 0, 0, 1),
             ("wf3k", "wf", 3, 9, (), True, 0, 0, 0, 2), ("wf4k", "wf", 4, 6, (), True, 0, 0, 0, 1)]
 
 
